@@ -1,0 +1,12 @@
+//go:build !verif
+
+// Package verifhook provides instrumentation points for external
+// verification harnesses. Without the "verif" build tag every function in
+// this package is an empty, inlinable no-op.
+package verifhook
+
+// Enabled reports whether the package was built with the "verif" tag.
+const Enabled = false
+
+// At marks an instrumentation point. It does nothing in this build.
+func At(string, any) {}
